@@ -20,7 +20,8 @@ git apply "$src/patch.diff" 2>>"$log" || { res "APPLY-FAILED"; cd /; git -C /rep
 go build ./... >>"$log" 2>&1 && res "build: ok" || res "build: FAILED"
 t0=$(date +%s)
 go test -vet=off -count=1 -timeout 20m $pkgs 2>&1 | grep -E "^(ok|FAIL|---|panic)" | grep -v "should_fail_with_permission_denied" >> "$log"
-existing_fail=$(grep -E "^--- FAIL" "$log" | grep -v TestImmudbStoreEdgeCases | wc -l)
+# root-only baseline failures of the pinned commit (they expect permission errors): TestImmudbStoreEdgeCases, TestOpenFail (ahtree), TestInvalidOpening (tbtree)
+existing_fail=$(grep -E "^--- FAIL" "$log" | grep -v -E "TestImmudbStoreEdgeCases|TestOpenFail|TestInvalidOpening" | wc -l)
 res "existing tests of $pkgs with patch: failing tests (besides the root-only permission test) = $existing_fail ($(( $(date +%s)-t0 )) s)"
 mkdir -p "$(dirname "$demo_path")"; placed=""
 for f in $demo_files; do cp "$f" "$(dirname "$demo_path")/$(basename "$f")"; placed="$placed $(dirname "$demo_path")/$(basename "$f")"; done
